@@ -94,6 +94,8 @@ class S3Spec(CasSpec):
             lib.used('A7 datetime: instants are integers; today() = utcnow() (process clock in UTC); strftime("%Y%m%d") is a function of the day index, injective in it')
             o = st.alloc('datetime'); n_ = fresh('now', z3.IntSort()); st.wr(o, 'instant', I(n_)); st.g['now'] = n_; return [(st, ('val', o))]
         if name == 'datetime.timedelta':
+            if set(kw) - {'days'} or len(pos) > 1:       # A7 models whole days only: anything finer is outside the model -> undecided, never a verdict
+                raise Unsupported('timedelta with a unit other than days')
             o = st.alloc('timedelta'); st.wr(o, 'days', kw.get('days', pos[0] if pos else I(0))); return [(st, ('val', o))]
         if name == 'builtins.range':
             o = st.alloc('list'); n_ = Val.iv(pos[0]); st.g.setdefault('iseq', {})[st.n] = dict(len=z3.If(n_ > 0, n_, 0), elt=lambda s, i: I(i)); return [(st, ('val', o))]
@@ -145,6 +147,13 @@ class S3Spec(CasSpec):
             o = st.alloc('date'); st.wr(o, 'dayidx', I(Val.iv(st.rd(a, 'dayidx')) + Val.iv(st.rd(b, 'days')))); return [(st, ('val', o))]
         if isinstance(op, ast.Add) and ka == 'datetime' and kb == 'timedelta':
             o = st.alloc('datetime'); st.wr(o, 'instant', I(Val.iv(st.rd(a, 'instant')) + Val.iv(st.rd(b, 'days')) * DAY)); return [(st, ('val', o))]
+        if isinstance(op, ast.Sub) and ka == 'date' and kb == 'timedelta':
+            o = st.alloc('date'); st.wr(o, 'dayidx', I(Val.iv(st.rd(a, 'dayidx')) - Val.iv(st.rd(b, 'days')))); return [(st, ('val', o))]
+        if isinstance(op, ast.Sub) and ka == 'datetime' and kb == 'timedelta':
+            o = st.alloc('datetime'); st.wr(o, 'instant', I(Val.iv(st.rd(a, 'instant')) - Val.iv(st.rd(b, 'days')) * DAY)); return [(st, ('val', o))]
+        if ka in ('date', 'datetime', 'timedelta') or kb in ('date', 'datetime', 'timedelta'):
+            # date arithmetic this model has no rule for: the engine's fall-back would be "raises TypeError", which is wrong for the library types
+            raise Unsupported('date / time arithmetic outside the A7 model')
         return None
 
     def format(self, ex, st, recv, pos, kw, node, star, dstar):
